@@ -8,7 +8,9 @@
 Verdict discipline (DESIGN.md section 1): exit 1 only when the REAL code showed
 behaviour contradicting the property; infrastructure trouble is exit 2.
 """
+import atexit
 import concurrent.futures as cf
+import fcntl
 import hashlib
 import json
 import os
@@ -57,47 +59,74 @@ def rmtree(p):
 # --------------------------------------------------------------------------- go builds
 
 _build_lock = threading.Lock()
+_built = {}
+_tmp_bins = []
+
+
+def _cleanup_bins():
+    for p in _tmp_bins:
+        try:
+            os.unlink(p)
+        except OSError:
+            pass
+
+
+atexit.register(_cleanup_bins)
 
 
 def build_driver(name="sigdrv", tags="verif", race=False):
-    """Build harness/<name> against /repo's current working tree. Returns binary path."""
+    """Build harness/<name> against REPO's current working tree (export shims from harness/overlay are injected
+    with -overlay).  Safe against concurrent builds (flock per (name, REPO)); returns a per-process copy of the binary."""
+    key = (name, tags, race)
     with _build_lock:
+        if key in _built:
+            return _built[key]
         src = os.path.join(VERIF, "harness", name)
-        bdir = os.path.join(BUILD, name + ("-race" if race else ""))
+        rh = hashlib.sha1(REPO.encode()).hexdigest()[:8]
+        bdir = os.path.join(BUILD, "%s-%s%s%s" % (name, rh, "-race" if race else "", "" if tags else "-notag"))
         os.makedirs(bdir, exist_ok=True)
-        # fresh copy of the sources (so go.mod/go.sum rewriting never dirties the git tree)
-        for f in os.listdir(bdir):
-            if f.endswith(".go") or f in ("go.mod", "go.sum"):
-                os.unlink(os.path.join(bdir, f))
-        for f in os.listdir(src):
-            if f.endswith(".go") or f == "go.mod":
-                shutil.copy(os.path.join(src, f), bdir)
-        # go.mod's replace must point at REPO
-        gm = open(os.path.join(bdir, "go.mod")).read().replace("=> /repo", "=> " + REPO)
-        open(os.path.join(bdir, "go.mod"), "w").write(gm)
-        shutil.copy(os.path.join(REPO, "go.sum"), os.path.join(bdir, "go.sum"))
-        out = os.path.join(bdir, name)
-        # export shims for unexported engine internals: injected with -overlay, never copied into REPO
-        ovroot = os.path.join(VERIF, "harness", "overlay")
-        pairs = []
-        for dp, _, fns in os.walk(ovroot):
-            for fn in fns:
-                if fn.endswith(".go"):
-                    full = os.path.join(dp, fn)
-                    pairs.append((os.path.relpath(full, ovroot), full))
-        ov = overlay_json(pairs, os.path.join(bdir, "overlay.json"))
-        cmd = ["go", "build", "-overlay", ov, "-o", out]
-        if tags:
-            cmd += ["-tags", tags]
-        if race:
-            cmd += ["-race"]
-        cmd += ["."]
-        t0 = time.time()
-        p = subprocess.run(cmd, cwd=bdir, env=GOENV, stdout=subprocess.PIPE, stderr=subprocess.STDOUT, text=True)
-        if p.returncode != 0:
-            raise Infra("go build %s failed:\n%s" % (name, p.stdout[-4000:]))
-        log("[build] %s in %.1fs" % (name, time.time() - t0))
-        return out
+        os.makedirs(os.path.join(BUILD, "bin"), exist_ok=True)
+        lockf = open(os.path.join(bdir, ".lock"), "w")
+        fcntl.flock(lockf, fcntl.LOCK_EX)
+        try:
+            # fresh copy of the sources (so go.mod/go.sum rewriting never dirties the git tree)
+            for f in os.listdir(bdir):
+                if f.endswith(".go") or f in ("go.mod", "go.sum"):
+                    os.unlink(os.path.join(bdir, f))
+            for f in os.listdir(src):
+                if f.endswith(".go") or f == "go.mod":
+                    shutil.copy(os.path.join(src, f), bdir)
+            gm = open(os.path.join(bdir, "go.mod")).read().replace("=> /repo", "=> " + REPO)
+            open(os.path.join(bdir, "go.mod"), "w").write(gm)
+            shutil.copy(os.path.join(REPO, "go.sum"), os.path.join(bdir, "go.sum"))
+            out = os.path.join(bdir, name)
+            ovroot = os.path.join(VERIF, "harness", "overlay")
+            pairs = []
+            for dp, _, fns in os.walk(ovroot):
+                for fn in fns:
+                    if fn.endswith(".go"):
+                        full = os.path.join(dp, fn)
+                        pairs.append((os.path.relpath(full, ovroot), full))
+            ov = overlay_json(pairs, os.path.join(bdir, "overlay.json"))
+            cmd = ["go", "build", "-overlay", ov, "-o", out]
+            if tags:
+                cmd += ["-tags", tags]
+            if race:
+                cmd += ["-race"]
+            cmd += ["."]
+            t0 = time.time()
+            p = subprocess.run(cmd, cwd=bdir, env=GOENV, stdout=subprocess.PIPE, stderr=subprocess.STDOUT, text=True)
+            if p.returncode != 0:
+                raise Infra("go build %s failed:\n%s" % (name, p.stdout[-6000:]))
+            log("[build] %s in %.1fs" % (name, time.time() - t0))
+            mine = os.path.join(BUILD, "bin", "%s-%d-%d" % (name, os.getpid(), random.getrandbits(24)))
+            shutil.copy2(out, mine)
+            _tmp_bins.append(mine)
+            _built[key] = mine
+            return mine
+        finally:
+            fcntl.flock(lockf, fcntl.LOCK_UN)
+            lockf.close()
 
 
 def overlay_json(pairs, path):
@@ -137,7 +166,12 @@ def go_test_inpkg(pkg_rel, harness_files, run_regex, env=None, tags="verif", tim
 # --------------------------------------------------------------------------- driver
 
 class DriverDead(Exception):
-    pass
+    """kind = 'exit' (the engine process ended by itself: crash/panic/os.Exit; rc in .rc) or
+    'hang' (no answer within the timeout; we killed it).  A hang under machine load is not evidence."""
+
+    def __init__(self, msg, kind="exit", rc=None):
+        Exception.__init__(self, msg)
+        self.kind, self.rc = kind, rc
 
 
 class Driver:
@@ -164,7 +198,7 @@ class Driver:
             self.p.stdin.write(line)
             self.p.stdin.flush()
         except (BrokenPipeError, OSError):
-            raise DriverDead("driver died before %s (rc=%s)" % (op, self.p.poll()))
+            raise DriverDead("driver died before %s (rc=%s)" % (op, self.p.poll()), "exit", self.p.poll())
         res = [None]
 
         def rd():
@@ -174,10 +208,10 @@ class Driver:
         t.join(timeout)
         if t.is_alive():
             self.kill()
-            raise DriverDead("driver hang on %s" % op)
+            raise DriverDead("driver hang on %s (> %ss)" % (op, timeout), "hang")
         if not res[0]:
             rc = self.p.wait()
-            raise DriverDead("driver exited during %s (rc=%s)" % (op, rc))
+            raise DriverDead("driver exited during %s (rc=%s)" % (op, rc), "exit", rc)
         o = json.loads(res[0])
         self.log.append((kw, o))
         return o
@@ -257,7 +291,7 @@ def _stage_spec(sc, extra_files=None):
 
 
 def run_tlc(module, cfg=None, workers=None, timeout=900, simulate=None, depth=None, seed=None, coverage=False,
-            extra_files=None, java_opts=None, sc=None, deadlock=None, defines=None, dfs=False, keep=False):
+            extra_files=None, java_opts=None, sc=None, deadlock=None, defines=None, dfs=False, keep=False, heap="6g"):
     """Run TLC on spec/<module>.tla with spec/<cfg>.  Returns TLCResult.
     simulate: 'num=N' style string for -simulate.  sc: existing staging dir (kept) or None (temp)."""
     own = sc is None
@@ -266,7 +300,7 @@ def run_tlc(module, cfg=None, workers=None, timeout=900, simulate=None, depth=No
         _stage_spec(sc, extra_files)
     r = TLCResult()
     try:
-        cmd = ["java", "-XX:+UseParallelGC", "-Xss64m"]
+        cmd = ["java", "-XX:+UseParallelGC", "-Xss64m", "-Xmx" + heap]
         if dfs:
             cmd += ["-Dtlc2.tool.queue.IStateQueue=StateDeque"]
         for k, v in (defines or {}).items():
